@@ -23,3 +23,31 @@ def install():
         return mask
 
     relib.unicode_ignorecase_mask = unicode_ignorecase_mask
+
+    # Second correction: `$` without re.MULTILINE also matches just before a trailing newline at the very end of
+    # the string (re documentation); 0.0.110 models it as end-of-string only, which made "confirmed over all paths"
+    # miss e.g. RE_TIME.match('12:00\n').
+    from crosshair.statespace import context_statespace
+    from crosshair.tracers import ResumedTracing
+    from crosshair.libimpl.builtinslib import SymbolicInt
+    orig = relib._internal_match_patterns
+    AT_END = (relib.AT, relib.AT_END)
+
+    def _internal_match_patterns(top_patterns, flags, string, offset, allow_empty=True, ord=ord, chr=chr):
+        if len(top_patterns) and top_patterns[0] == AT_END and not (re.MULTILINE & flags):
+            space = context_statespace()
+            with ResumedTracing():
+                remaining = len(string) - offset
+            smt_rem = SymbolicInt._coerce_to_smt_sort(remaining)
+            if space.smt_fork(smt_rem == 0):
+                return _internal_match_patterns(top_patterns[1:], flags, string, offset, allow_empty, ord=ord, chr=chr)
+            if space.smt_fork(smt_rem == 1):
+                with ResumedTracing():
+                    ch = ord(string[offset])
+                if space.smt_fork(SymbolicInt._coerce_to_smt_sort(ch) == 10):
+                    return _internal_match_patterns(top_patterns[1:], flags, string, offset, allow_empty,
+                                                    ord=ord, chr=chr)
+            return None
+        return orig(top_patterns, flags, string, offset, allow_empty, ord=ord, chr=chr)
+
+    relib._internal_match_patterns = _internal_match_patterns
